@@ -744,8 +744,11 @@ def format_percent(I, fmt, arg, node):
                 return cf % (tuple(concrete(a) for a in args) if isinstance(ca, tuple) else ca)
             except Exception:
                 pass
-        return Unk('fmt', kinds=['bytes' if isinstance(cf, bytes) else 'str'], taint=taint,
-                   src=('format', cf, args))
+        u = Unk('fmt', kinds=['bytes' if isinstance(cf, bytes) else 'str'], taint=taint,
+                src=('format', cf, args))
+        if _re.sub(pat, b'' if isinstance(cf, bytes) else '', cf):
+            u.facts.add('truthy')      # the template has literal text
+        return u
     kf = kind_of(fmt)
     if kf is not None and kf <= {'int'}:
         return Unk('mod', kinds=['int'], taint=taint, src=('binop', 'Mod', fmt, arg))
